@@ -76,6 +76,7 @@ func cmpKeys(k *security.IKESAKey, want ref.IKEKeys) string {
 }
 
 func c07Derive(k *core.Case) {
+	noiseFor(k)
 	ci := k.Index % 54
 	e, i, p, d := ci%3, (ci/3)%3, (ci/9)%3, (ci/27)%2
 	s := ref.Suite{EncKeyLen: []int{16, 24, 32}[e], Integ: i}
@@ -100,7 +101,7 @@ func c07Derive(k *core.Case) {
 	k.Eval(1)
 	// the arguments as a caller may hold them: in every third case nonces and secret lie back to back in ONE exchange
 	// buffer with spare room behind (sub-slices with spare capacity); the function must treat them as read-only inputs
-	argN, argS := nonce, shared
+	argN, argS := append([]byte{}, nonce...), append([]byte{}, shared...) // the reference below works on nonce / shared, which the library never sees
 	var exch, exchCopy []byte
 	if k.Index%3 == 2 {
 		exch = make([]byte, 0, len(nonce)+len(shared)+64)
@@ -192,7 +193,7 @@ func c07Derive(k *core.Case) {
 	if k.Index%2 == 1 {
 		nonce2, shared2 := k.R.Bytes(pickLen(k.R, k.Index/3)), k.R.Bytes(pickLen(k.R, k.Index/5))
 		spii2, spir2 := k.R.U64(), k.R.U64()
-		if err := key.GenerateKeyForIKESA(nonce2, shared2, spii2, spir2); err != nil {
+		if err := key.GenerateKeyForIKESA(append([]byte{}, nonce2...), append([]byte{}, shared2...), spii2, spir2); err != nil {
 			k.Violate("derive-error", "rekey-same-object-error", err.Error(), w)
 			return
 		}
@@ -239,6 +240,7 @@ func c07Derive(k *core.Case) {
 }
 
 func c07TwoParty(k *core.Case) {
+	noiseFor(k)
 	ci := k.Index % 54
 	e, i, p, d := ci%3, (ci/3)%3, (ci/9)%3, (ci/27)%2
 	w := M{"encr": e, "integ": i, "prf": p, "dh": d}
@@ -257,6 +259,19 @@ func c07TwoParty(k *core.Case) {
 			w["initiator_exponent"] = secret.String()
 		}
 		pubI := ini.DhInfo.GetPublicValue(secret)
+		// the application has prepared other offers before from what the library handed it (e.g. the AES-256 variant of
+		// the AES-128 transform): those objects are the caller's to edit
+		if k.Index%2 == 0 {
+			for _, other := range []*security.IKESAKey{ini, newInfoKey((e+1)%3, i, p, d)} {
+				if op, oerr := other.ToProposal(); oerr == nil {
+					for _, t := range op.EncryptionAlgorithm {
+						t.AttributeValue = uint16(k.R.Pick(128, 192, 256))
+					}
+					scribbleProposal(op)
+				}
+			}
+			k.Count("offers_prepared_from_returned_transforms_before", 1)
+		}
 		// proposal travels through the wire
 		prop, err := ini.ToProposal()
 		if err != nil {
@@ -291,8 +306,9 @@ func c07TwoParty(k *core.Case) {
 			k.Violate("mismatch", "public-value-length", fmt.Sprintf("%d / %d octets for group size %d", len(pubI), len(pubR), grp), w)
 			return
 		}
-		shared := ini.DhInfo.GetSharedKey(secret, new(big.Int).SetBytes(pubR))
-		if err = ini.GenerateKeyForIKESA(nonces, shared, spii, spir); err != nil {
+		sharedObj := ini.DhInfo.GetSharedKey(secret, new(big.Int).SetBytes(pubR))
+		shared := append([]byte{}, sharedObj...) // private copy for the reference: what the keying call does to the slice it is handed is not C07's subject
+		if err = ini.GenerateKeyForIKESA(nonces, sharedObj, spii, spir); err != nil {
 			k.Violate("error", "initiator-derive-error", err.Error(), w)
 			return
 		}
@@ -330,6 +346,8 @@ func c07TwoParty(k *core.Case) {
 				return
 			}
 		}
+		scribbleProposal(prop) // both ends recycle the proposal objects they own
+		scribbleProposal(rprop)
 		k.Distinct(fmt.Sprintf("two-party|%d%d%d%d|lz%v", e, i, p, d, shared[0] == 0))
 		k.Count("two_party_runs", 1)
 		if shared[0] == 0 {
@@ -347,7 +365,7 @@ func c07(c *core.Ctx) {
 	c.Info("assumptions", "reference HMAC/prf+ in /verif/harness/ref; lengths table typed from RFC 7296/4868/2404/2403")
 	c.Family("derive", c.N(54*100, 54*100000), c07Derive)
 	c.Family("two-party", c.N(162, 30000), c07TwoParty)
-	c.Require("two_party_runs", "two_party_shared_secret_with_leading_zeros", "held_sa_keys_rechecked", "same_object_keyed_twice")
+	c.Require("offers_prepared_from_returned_transforms_before", "two_party_runs", "two_party_shared_secret_with_leading_zeros", "held_sa_keys_rechecked", "same_object_keyed_twice")
 }
 
 // ---------------------------------------------------------------------------
@@ -378,6 +396,7 @@ func childCmp(ck *security.ChildSAKey, p int, skd, nonces []byte, e, i int) stri
 }
 
 func c08One(k *core.Case) {
+	noiseFor(k)
 	ci := k.Index % 36
 	p, e, i := ci%3, (ci/3)%3, (ci/9)%4
 	raw := libsa.RandomRaw(k.R, ref.Suites[k.R.Intn(9)])
@@ -432,6 +451,15 @@ func c08History(k *core.Case) {
 		return
 	}
 	steps := k.R.Pick(5, 20, 100)
+	type heldChild struct {
+		ck     *security.ChildSAKey
+		skd    []byte
+		nonces []byte
+		e, i   int
+		step   int
+	}
+	var heldChildren []heldChild
+	templates := map[int]*security.ChildSAKey{}
 	for st := 1; st <= steps; st++ {
 		if k.R.Chance(1, 3) { // interleave traffic on the same SA
 			m := gen.Msg(k.R, gen.Opt{Protected: true, MaxPayloads: 2})
@@ -454,6 +482,31 @@ func c08History(k *core.Case) {
 		nonces := k.R.Bytes(k.R.Range(0, 100))
 		fresh, _ := libsa.NewKey(raw)
 		a, b := newChild(e, i), newChild(e, i)
+		// where the application's ChildSAKey object comes from: a literal, the proposal constructor, or a value copy of
+		// a template built once per algorithm choice by the proposal constructor
+		if i > 0 {
+			switch k.R.Intn(3) {
+			case 1:
+				if pr, perr := newChild(e, i).ToProposal(); perr == nil {
+					if c2, cerr := security.NewChildSAKeyByProposal(pr); cerr == nil && c2 != nil {
+						a = c2
+						k.Count("child_object_from_proposal_constructor", 1)
+					}
+				}
+			case 2:
+				tk := e*4 + i
+				if templates[tk] == nil {
+					if pr, perr := newChild(e, i).ToProposal(); perr == nil {
+						templates[tk], _ = security.NewChildSAKeyByProposal(pr)
+					}
+				}
+				if templates[tk] != nil {
+					cpy := *templates[tk]
+					a = &cpy
+					k.Count("child_object_copied_from_a_template", 1)
+				}
+			}
+		}
 		var e1, e2 error
 		k.Eval(1)
 		pn := core.Try(func() {
@@ -477,7 +530,19 @@ func c08History(k *core.Case) {
 			k.Violate("mismatch", "child-key-mismatch", "fresh copy: "+bad, w)
 			return
 		}
+		heldChildren = append(heldChildren, heldChild{a, append([]byte{}, raw.K.D...), nonces, e, i, st})
+		// Child SAs established earlier keep their keys
+		for _, h := range heldChildren {
+			if st%10 != 0 && st != steps && h.step != st-1 {
+				continue // everything is re-verified every 10th step and at the end, the previous one every step
+			}
+			if bad := childCmp(h.ck, raw.Prf, h.skd, h.nonces, h.e, h.i); bad != "" {
+				k.Violate("history", "keys-of-an-earlier-child-sa-changed", fmt.Sprintf("Child SA of step %d inspected after step %d: %s", h.step, st, bad), w)
+				return
+			}
+		}
 	}
+	k.Count("earlier_child_sas_rechecked", 1)
 	k.Distinct(fmt.Sprintf("history|%s|%d", s.Name(), steps))
 	k.Count(fmt.Sprintf("histories_len_%d", steps), 1)
 }
@@ -488,13 +553,14 @@ func c08(c *core.Ctx) {
 	c.Info("assumptions", "each derivation uses a new ChildSAKey (the method appends to the receiver's slices; reusing a ChildSAKey is outside the property)")
 	c.Family("derive", c.N(20000, 30000000), c08One)
 	c.Family("history", c.N(108, 100000), c08History)
-	c.Require("ike_sa_rekeyed_in_history")
+	c.Require("ike_sa_rekeyed_in_history", "earlier_child_sas_rechecked", "child_object_from_proposal_constructor", "child_object_copied_from_a_template")
 }
 
 // ---------------------------------------------------------------------------
 // C16
 
 func c16One(k *core.Case, ikl, ckl int) {
+	noiseFor(k)
 	ik, ck := k.R.Bytes(ikl), k.R.Bytes(ckl)
 	var id []byte
 	switch k.R.Intn(6) {
